@@ -111,8 +111,8 @@ Section Proofs.
     unfold impl_sim_length, ref_T, input_lengths in *.
     fold (in_lens M) in HS |- *. fold sl_step.
     destruct (in_lens M) as [|t r] eqn:EL.
-    - destruct (sl_aux M (t:=0)) as [_ A2]; [rewrite EL; constructor|]. rewrite EL in A2. exact A2.
-    - cbn in HS. destruct (sl_aux M (t:=t)) as [_ A2].
+    - destruct (sl_aux M 0) as [_ A2]; [rewrite EL; constructor|]. rewrite EL in A2. exact A2.
+    - cbn in HS. destruct (sl_aux M t) as [_ A2].
       + rewrite EL. constructor; [reflexivity|]. rewrite forallb_forall in HS.
         apply Forall_forall. intros x Hx. symmetry. apply Nat.eqb_eq. auto.
       + rewrite EL in A2. exact A2.
@@ -202,7 +202,7 @@ Section Proofs.
     - rewrite H. cbn.
       destruct (@upd_nth_Some _ gens g (fun _ => Some (Some gd)) None (Some gd) E eq_refl) as (gens' & U).
       rewrite U. cbn. exists gens'. split; [reflexivity|].
-      destruct (upd_nth_spec _ _ _ U) as (Ln & (x & y & X & Y & Z) & O).
+      destruct (upd_nth_spec _ _ _ _ U) as (Ln & (x & y & X & Y & Z) & O).
       inversion Y; subst. repeat split; auto.
   Qed.
 
@@ -223,7 +223,7 @@ Section Proofs.
     nth_error gens' g = Some (Some gd) /\ (forall g', g' <> g -> nth_error gens' g' = nth_error gens g') /\
     length gens' = length gens.
   Proof.
-    intros U. destruct (upd_nth_spec _ _ _ U) as (Ln & (x & y & X & Y & Z) & O).
+    intros U. destruct (upd_nth_spec _ _ _ _ U) as (Ln & (x & y & X & Y & Z) & O).
     inversion Y; subst. unfold view. rewrite Z. repeat split; auto.
     intros g' Hne. rewrite O by exact Hne. reflexivity.
   Qed.
@@ -306,9 +306,9 @@ Section Proofs.
   Lemma exp_row_snoc d applied l m md row :
     exp_row d (applied ++ [l]) m md row = (x <- exp_row d applied m md row ;; link_step d m row x l).
   Proof.
-    unfold exp_row. destruct (stored_input md row); cbn; [|reflexivity].
-    rewrite rif_app. destruct (ref_input_from d applied m row l0); cbn; [|reflexivity].
-    destruct (link_step d m row l1 l); reflexivity.
+    unfold exp_row. destruct (stored_input md row) as [i0|]; cbn [obind]; [|reflexivity].
+    rewrite rif_app. destruct (ref_input_from d applied m row i0) as [x|]; cbn [obind]; [|reflexivity].
+    rewrite rif_unfold. cbn [foldM]. apply obind_eta.
   Qed.
 
   Lemma stored_input_length md row init : In md M ->
@@ -384,4 +384,1024 @@ Section Proofs.
     unfold contrib, RefSim.contrib. rewrite Hdm. cbn. rewrite N. cbn. exact V.
   Qed.
 
+  (** ---------- the invariant ---------- *)
+  Definition own_inv (c : sched_state) (md : model_data) (dm : list node_result)
+             (gens : list (option gen_data)) : Prop :=
+    forall g, g < sc_ran c ->
+      nth_error gens g = Some (Some (final_gd md dm g)) \/
+      (nth_error gens g = Some None /\ g < sc_written c /\ g < sc_linked c).
+
+  Definition pend_inv (c : sched_state) (d : done_t) (applied : list link) (m : nat) (md : model_data)
+             (gens : list (option gen_data)) : Prop :=
+    forall g, sc_ran c <= g -> g < G ->
+      exists ins, exp_inputs d applied m md g = Some ins /\ view md gens g = Some (pending_gd md g ins).
+
+  Definition model_inv (c : sched_state) (d : done_t) (applied : list link) (m : nat) (md : model_data)
+             (mr : mref) : Prop :=
+    length (mr_gens mr) = G /\
+    (exists dm, nth_error d m = Some dm /\ own_inv c md dm (mr_gens mr)) /\
+    pend_inv c d applied m md (mr_gens mr) /\
+    mr_init mr = outp && (0 <? m_start md (sc_written c)).
+
+  Definition mem_inv (c : sched_state) (d : done_t) (applied : list link) (refs : list mref) : Prop :=
+    length refs = length M /\
+    forall m md, nth_error M m = Some md ->
+      exists mr, nth_error refs m = Some mr /\ model_inv c d applied m md mr.
+
+  Definition rows_of {A} (proj : node_result -> A) (md : model_data) (dm : list node_result) (a : nat)
+    : list (option A) :=
+    map (fun nr => Some (proj nr)) (firstn a dm) ++ repeat None (m_total md - a).
+
+  Definition exp_model_out (md : model_data) (dm : list node_result) (w : nat) : model_out :=
+    let a := m_start md w in
+    if outp && (0 <? a) then
+      {| mo_inputs := if write_inputs name_eqb sel md then Some (rows_of (@nr_in _ _) md dm a) else None;
+         mo_outputs := if write_outputs name_eqb sel md then Some (rows_of (@nr_out _ _) md dm a) else None;
+         mo_states := Some (rows_of (@nr_st _ _) md dm a) |}
+    else no_out T Ser.
+
+  Definition file_inv (c : sched_state) (d : done_t) (file : out_file T Ser) : Prop :=
+    length file = length M /\
+    forall m md, nth_error M m = Some md ->
+      exists dm, nth_error d m = Some dm /\ nth_error file m = Some (exp_model_out md dm (sc_written c)).
+
+  Definition links_inv (c : sched_state) (applied rem : list link) : Prop :=
+    L = applied ++ rem /\
+    Forall (fun l => l_src_gen l < sc_linked c) applied /\
+    Forall (fun l => sc_linked c <= l_src_gen l) rem.
+
+  Definition sched_ok (c : sched_state) : Prop :=
+    (sc_ran c = sc_linked c \/ sc_ran c = S (sc_linked c)) /\
+    sc_written c <= sc_ran c /\ sc_ran c <= G /\ (outp = false -> sc_written c = 0).
+
+  Definition INV (c : sched_state) (st : istate) (d : done_t) (applied : list link) : Prop :=
+    ref_run_upto s_zero s_add cat K gr (sc_ran c) = Some d /\
+    done_wf (sc_ran c) d /\ sched_ok c /\
+    links_inv c applied (is_links st) /\
+    mem_inv c d applied (is_refs st) /\
+    file_inv c d (is_file st).
+
+  (** ---------- runGeneration(i) for one model ---------- *)
+  Definition node_of (ins : list (list Ser)) (j : nat) (y : list Ser * list T) : node_result :=
+    {| nr_in := nth j ins []; nr_out := fst y; nr_st := snd y |}.
+
+  Definition run_post (i : nat) (md : model_data) (dm : list node_result) (mr mr' : mref)
+             (rows : list node_result) : Prop :=
+    mr_init mr' = mr_init mr /\
+    length (mr_gens mr') = length (mr_gens mr) /\
+    nth_error (mr_gens mr') i = Some (Some (final_gd md (dm ++ rows) i)) /\
+    (forall g, g <> i -> nth_error (mr_gens mr') g = nth_error (mr_gens mr) g) /\
+    length rows = m_count md i /\
+    Forall (fun nr => length (nr_out nr) = cat_nout cat (md_name md)) rows.
+
+  Lemma ref_node_cell i d applied rem m md ins j x :
+    L = applied ++ rem -> Forall (fun l => i <= l_src_gen l) rem ->
+    nth_error M m = Some md -> i < G ->
+    exp_inputs d applied m md i = Some ins ->
+    j < m_count md i -> nth_error ins j = Some x ->
+    ref_node d m md (m_start md i + j) =
+      (p <- nth_error (md_params md) (m_start md i + j) ;;
+       s <- nth_error (md_states md) (m_start md i + j) ;;
+       y <- K (md_name md) p s x ;;
+       Some {| nr_in := x; nr_out := fst y; nr_st := snd y |}).
+  Proof.
+    intros HL Hrem Hm Hi Hexp Hj Hx.
+    assert (Hmd : In md M) by (eapply nth_error_In; eauto).
+    unfold exp_inputs in Hexp.
+    destruct (mapM_nth_error _ _ _ Hexp j (m_start md i + j)) as (x' & Hx' & Hrow).
+    { apply nth_error_seq. exact Hj. }
+    rewrite Hx in Hx'. inversion Hx'; subst x'. clear Hx'.
+    unfold ref_node, RefSim.ref_node. unfold exp_row in Hrow.
+    destruct (stored_input md (m_start md i + j)) as [init|]; cbn [obind] in *; [|discriminate].
+    rewrite HL, rif_app. fold ref_input_from. rewrite Hrow. cbn [obind].
+    rewrite rif_notarget.
+    2:{ intros l Hl. eapply (targets_later l m md i); eauto.
+        - rewrite HL. apply in_or_app. right. exact Hl.
+        - pose proof (@Vadd md i Hmd Hi). lia.
+        - rewrite Forall_forall in Hrem. apply Hrem. exact Hl. }
+    cbn [obind].
+    destruct (nth_error (md_params md) (m_start md i + j)); cbn [obind]; [|reflexivity].
+    destruct (nth_error (md_states md) (m_start md i + j)); cbn [obind]; [|reflexivity].
+    destruct (K (md_name md) l l0 x) as [[o s']|]; reflexivity.
+  Qed.
+
+  Lemma run_model_ok i d applied rem m md mr dm ins :
+    L = applied ++ rem -> Forall (fun l => i <= l_src_gen l) rem ->
+    nth_error M m = Some md -> i < G ->
+    length dm = m_start md i ->
+    view md (mr_gens mr) i = Some (pending_gd md i ins) ->
+    exp_inputs d applied m md i = Some ins ->
+    orel (run_post i md dm mr) (run_model s_zero cat K gr i md mr)
+         (mapM (ref_node d m md) (seq (m_start md i) (m_count md i))).
+  Proof.
+    intros HL Hrem Hm Hi Hdm Hview Hexp.
+    assert (Hmd : In md M) by (eapply nth_error_In; eauto).
+    unfold run_model.
+    destruct (get_generation_view md _ _ _ Hview) as (gens1 & GG & N1 & L1 & O1).
+    fold get_generation. rewrite GG. cbn [obind].
+    unfold pending_gd in *. destruct (m_count md i =? 0) eqn:E0.
+    - (* empty batch *)
+      apply Nat.eqb_eq in E0. rewrite E0. cbn.
+      unfold run_post. cbn. repeat split; auto.
+      rewrite N1. unfold final_gd. rewrite E0. reflexivity.
+    - apply Nat.eqb_neq in E0. cbn [gd_count].
+      replace (m_count md i =? 0) with false by (symmetry; apply Nat.eqb_neq; exact E0).
+      pose proof (mapM_length _ _ _ Hexp) as Hlen_ins. rewrite seq_length in Hlen_ins.
+      (* the reference side, cell by cell *)
+      set (cell := fun j => p <- nth_error (slice_rows (m_start md i) (m_count md i) (md_params md)) j ;;
+                            s <- nth_error (slice_rows (m_start md i) (m_count md i) (md_states md)) j ;;
+                            i0 <- nth_error ins j ;; K (md_name md) p s i0).
+      assert (Href : mapM (ref_node d m md) (seq (m_start md i) (m_count md i)) =
+                     (ys <- mapM cell (seq 0 (m_count md i)) ;;
+                      Some (map (fun p => node_of ins (fst p) (snd p)) (combine (seq 0 (m_count md i)) ys)))).
+      { rewrite seq_as_map, mapM_map. rewrite <- mapM_post. apply mapM_ext.
+        intros j Hjin. apply in_seq in Hjin.
+        assert (Hj : j < m_count md i) by lia.
+        destruct (nth_error ins j) as [x|] eqn:Hx.
+        2:{ apply nth_error_None in Hx. lia. }
+        rewrite (ref_node_cell i d applied rem m md ins j x HL Hrem Hm Hi Hexp Hj Hx).
+        unfold cell. rewrite !nth_error_slice_rows by exact Hj. rewrite Hx.
+        destruct (nth_error (md_params md) (m_start md i + j)); cbn [obind]; [|reflexivity].
+        destruct (nth_error (md_states md) (m_start md i + j)); cbn [obind]; [|reflexivity].
+        destruct (K (md_name md) l l0 x) as [y|]; cbn [obind]; [|reflexivity].
+        unfold node_of. cbn. rewrite (nth_error_nth _ _ _ Hx). reflexivity. }
+      rewrite Href. unfold run_cells. cbn [gd_count gd_params gd_states gd_inputs]. fold cell.
+      destruct (mapM cell (seq 0 (m_count md i))) as [res|] eqn:Hres; cbn [obind orel]; [|exact I].
+      pose proof (mapM_length _ _ _ Hres) as Hlen_res. rewrite seq_length in Hlen_res.
+      match goal with |- context [upd_nth gens1 i ?f] =>
+        destruct (upd_nth_Some gens1 i f _ _ N1 eq_refl) as (gens2 & U2) end.
+      rewrite U2. cbn [obind orel].
+      destruct (view_set md _ _ _ _ U2) as (_ & _ & N2 & O2 & L2).
+      set (rows := map (fun p => node_of ins (fst p) (snd p)) (combine (seq 0 (m_count md i)) res)).
+      assert (Hlen_rows : length rows = m_count md i).
+      { unfold rows. rewrite map_length, combine_length, seq_length. lia. }
+      unfold run_post. cbn [mr_gens mr_init]. repeat split; auto.
+      + lia.
+      + rewrite N2. do 2 f_equal. unfold final_gd.
+        replace (m_count md i =? 0) with false by (symmetry; apply Nat.eqb_neq; exact E0).
+        cbn zeta.
+        replace (slice_rows (m_start md i) (m_count md i) (dm ++ rows)) with rows.
+        2:{ rewrite <- Hdm, <- Hlen_rows. symmetry. apply slice_rows_app_exact. }
+        f_equal.
+        * unfold rows. rewrite map_combine_fst_proj with (q := fun j => nth j ins []).
+          -- rewrite <- Hlen_ins. symmetry. apply map_nth_seq.
+          -- rewrite seq_length. lia.
+          -- reflexivity.
+        * unfold rows. symmetry. apply map_combine_snd_proj with (q := @snd _ _).
+          -- rewrite seq_length. lia.
+          -- reflexivity.
+        * f_equal. unfold rows. symmetry. apply map_combine_snd_proj with (q := @fst _ _).
+          -- rewrite seq_length. lia.
+          -- reflexivity.
+      + intros g Hg. rewrite O2 by exact Hg. apply O1. exact Hg.
+      + (* K_wf *)
+        apply Forall_forall. intros nr Hnr. unfold rows in Hnr.
+        apply in_map_iff in Hnr. destruct Hnr as ([j y] & <- & Hin).
+        apply in_combine_r in Hin. cbn.
+        destruct (mapM_In _ _ _ Hres y Hin) as (j' & _ & Hc). unfold cell in Hc.
+        destruct (nth_error (slice_rows (m_start md i) (m_count md i) (md_params md)) j'); cbn in Hc; [|discriminate].
+        destruct (nth_error (slice_rows (m_start md i) (m_count md i) (md_states md)) j'); cbn in Hc; [|discriminate].
+        destruct (nth_error ins j'); cbn in Hc; [|discriminate].
+        destruct y as [o s']. eapply K_wf; eauto.
+  Qed.
+
+  (** ---------- runGeneration(i): all models ---------- *)
+  Lemma run_models_orel i d
+        (P : nat -> model_data -> mref -> list node_result -> Prop)
+        (Q : nat -> model_data -> list node_result -> mref -> mref -> list node_result -> Prop) :
+    (forall m md mr dm, P m md mr dm ->
+        orel (Q m md dm mr) (run_model s_zero cat K gr i md mr)
+             (mapM (ref_node d m md) (seq (m_start md i) (m_count md i)))) ->
+    forall mds refs off,
+      length refs = length mds ->
+      (forall p md, nth_error mds p = Some md ->
+         exists mr dm, nth_error refs p = Some mr /\ nth_error d (off + p) = Some dm /\ P (off + p) md mr dm) ->
+      orel (fun refs' d' =>
+              length refs' = length mds /\ length d' = length mds /\
+              forall p md, nth_error mds p = Some md ->
+                exists mr mr' dm rows,
+                  nth_error refs p = Some mr /\ nth_error refs' p = Some mr' /\
+                  nth_error d (off + p) = Some dm /\ nth_error d' p = Some (dm ++ rows) /\
+                  Q (off + p) md dm mr mr' rows)
+           (run_models s_zero cat K gr i mds refs)
+           (mapM (fun '(m, md) =>
+                    dm <- nth_error d m ;;
+                    rows <- mapM (ref_node d m md) (seq (m_start md i) (m_count md i)) ;;
+                    Some (dm ++ rows))
+                 (combine (seq off (length mds)) mds)).
+  Proof.
+    intros HPQ. induction mds as [|md mds IH]; intros refs off Hlen Hall.
+    - destruct refs; [|discriminate]. cbn. repeat split; auto.
+      intros p md Hp. destruct p; discriminate.
+    - destruct refs as [|mr refs]; [discriminate|]. cbn [length seq combine mapM run_models].
+      destruct (Hall 0 md eq_refl) as (mr0 & dm & Hmr0 & Hdm & HP). cbn in Hmr0. inversion Hmr0; subst mr0.
+      rewrite Nat.add_0_r in Hdm, HP. rewrite Hdm. cbn [obind].
+      pose proof (HPQ _ _ _ _ HP) as HO.
+      destruct (run_model s_zero cat K gr i md mr) as [mr'|];
+        destruct (mapM (ref_node d off md) (seq (m_start md i) (m_count md i))) as [rows|];
+        cbn [orel obind] in *; try contradiction; [|exact I].
+      assert (Hall' : forall p md0, nth_error mds p = Some md0 ->
+                 exists mr1 dm1, nth_error refs p = Some mr1 /\ nth_error d (S off + p) = Some dm1 /\
+                                 P (S off + p) md0 mr1 dm1).
+      { intros p md0 Hp. destruct (Hall (S p) md0 Hp) as (mr1 & dm1 & A & B & C).
+        replace (S off + p) with (off + S p) by lia. eauto. }
+      specialize (IH refs (S off) ltac:(cbn in Hlen; lia) Hall').
+      destruct (run_models s_zero cat K gr i mds refs) as [refs'|];
+        match goal with |- context [mapM ?F ?l] => destruct (mapM F l) as [d'|] end;
+        cbn [orel obind] in *; try contradiction; [|exact I].
+      destruct IH as (L1 & L2 & IH). cbn [length]. repeat split; try lia.
+      intros p md0 Hp. destruct p as [|p]; cbn in Hp.
+      + inversion Hp; subst md0. exists mr, mr', dm, rows. rewrite Nat.add_0_r. cbn. repeat split; auto.
+      + destruct (IH p md0 Hp) as (mr1 & mr1' & dm1 & rows1 & A & B & C & D & E).
+        exists mr1, mr1', dm1, rows1. replace (off + S p) with (S off + p) by lia. cbn. repeat split; auto.
+  Qed.
+
+  Lemma final_gd_ext md dm more g n : In md M -> S g <= n -> n <= G -> length dm = m_start md n ->
+    final_gd md (dm ++ more) g = final_gd md dm g.
+  Proof.
+    intros Hmd Hg Hn Hlen. unfold final_gd. destruct (m_count md g =? 0); [reflexivity|].
+    cbn zeta. rewrite slice_rows_app_l; [reflexivity|].
+    rewrite (@Vadd md g Hmd ltac:(lia)), Hlen.
+    pose proof (@Vmono md (S g) n Hmd Hg Hn) as H. exact H.
+  Qed.
+
+  Lemma view_ext md gens gens' g :
+    nth_error gens' g = nth_error gens g -> view md gens' g = view md gens g.
+  Proof. intros H. unfold view. rewrite H. reflexivity. Qed.
+
+  Lemma exp_model_out_ext md dm more w n : In md M -> w <= n -> n <= G -> length dm = m_start md n ->
+    exp_model_out md (dm ++ more) w = exp_model_out md dm w.
+  Proof.
+    intros Hmd Hw Hn Hlen. unfold exp_model_out, rows_of.
+    pose proof (@Vmono md w n Hmd Hw Hn) as H.
+    rewrite firstn_app. replace (m_start md w - length dm) with 0 by lia.
+    cbn [firstn]. rewrite app_nil_r. reflexivity.
+  Qed.
+
+  Lemma ref_run_upto_S n d d' :
+    ref_run_upto s_zero s_add cat K gr n = Some d -> ref_gen d n = Some d' ->
+    ref_run_upto s_zero s_add cat K gr (S n) = Some d'.
+  Proof.
+    intros H1 H2. unfold ref_run_upto in *. rewrite seq_S, foldM_app. cbn [Nat.add].
+    rewrite H1. cbn. fold ref_gen. rewrite H2. reflexivity.
+  Qed.
+
+  Lemma ref_run_upto_S_None n d :
+    ref_run_upto s_zero s_add cat K gr n = Some d -> ref_gen d n = None ->
+    ref_run_upto s_zero s_add cat K gr (S n) = None.
+  Proof.
+    intros H1 H2. unfold ref_run_upto in *. rewrite seq_S, foldM_app. cbn [Nat.add].
+    rewrite H1. cbn. fold ref_gen. rewrite H2. reflexivity.
+  Qed.
+
+  Definition c_run (c : sched_state) : sched_state :=
+    {| sc_ran := S (sc_ran c); sc_linked := sc_linked c; sc_written := sc_written c |}.
+
+  Lemma step_run c st d applied :
+    INV c st d applied -> sc_ran c = sc_linked c -> sc_ran c < G ->
+    orel (fun st' d' => INV (c_run c) st' d' applied)
+         (impl_step s_zero s_add cat K name_eqb gr sel st (ARun (sc_ran c)))
+         (ref_gen d (sc_ran c)).
+  Proof.
+    intros (Hrun & Hwf & Hok & Hlk & Hmem & Hfile) Hrl HiG.
+    remember (sc_ran c) as i eqn:Hi_eq.
+    destruct Hlk as (HL & Happ & Hrem). destruct Hmem as (Hlenrefs & Hmem).
+    destruct Hwf as (Hlend & Hwf).
+    cbn [impl_step].
+    set (P := fun (m : nat) (md : model_data) (mr : mref) (dm : list node_result) =>
+                nth_error M m = Some md /\ model_inv c d applied m md mr /\
+                length dm = m_start md i /\
+                Forall (fun nr => length (nr_out nr) = cat_nout cat (md_name md)) dm).
+    set (Q := fun (m : nat) (md : model_data) (dm : list node_result) (mr mr' : mref) (rows : list node_result) =>
+                P m md mr dm /\ run_post i md dm mr mr' rows).
+    assert (HPQ : forall m md mr dm, P m md mr dm ->
+                orel (Q m md dm mr) (run_model s_zero cat K gr i md mr)
+                     (mapM (ref_node d m md) (seq (m_start md i) (m_count md i)))).
+    { intros m md mr dm HP. pose proof HP as (Hm & (Hg & Hown & Hpend & Hinit) & Hdm & Hdwf).
+      destruct (Hpend i ltac:(lia) HiG) as (ins & Hexp & Hview).
+      pose proof (run_model_ok i d applied (is_links st) m md mr dm ins HL) as RO.
+      assert (Hrem' : Forall (fun l => i <= l_src_gen l) (is_links st)).
+      { eapply Forall_impl; [|exact Hrem]. cbn. intros; lia. }
+      specialize (RO Hrem' Hm HiG Hdm Hview Hexp).
+      destruct (run_model s_zero cat K gr i md mr); destruct (mapM (ref_node d m md) _); cbn in *; auto.
+      unfold Q. split; auto. }
+    pose proof (run_models_orel i d P Q HPQ M (is_refs st) 0 Hlenrefs) as RM.
+    assert (Hall : forall p md, nth_error M p = Some md ->
+               exists mr dm, nth_error (is_refs st) p = Some mr /\ nth_error d (0 + p) = Some dm /\ P (0 + p) md mr dm).
+    { intros p md Hp. destruct (Hmem p md Hp) as (mr & Hmr & Hinv).
+      destruct (Hwf p md Hp) as (dm & Hdm & Hl & Hf).
+      exists mr, dm. cbn. unfold P. split; [exact Hmr|]. split; [exact Hdm|]. split; [exact Hp|]. split; [exact Hinv|]. split; [exact Hl|exact Hf]. }
+    specialize (RM Hall).
+    unfold ref_gen, RefSim.ref_gen, indexed.
+    destruct (run_models s_zero cat K gr i M (is_refs st)) as [refs'|];
+      match goal with |- context [mapM ?F ?l] => destruct (mapM F l) as [d'|] eqn:Hd' end;
+      cbn [orel obind] in *; try contradiction; [|exact I].
+    destruct RM as (L1 & L2 & RM).
+    assert (Hext : d_ext d d').
+    { intros m dm Hdm.
+      destruct (nth_error M m) as [md|] eqn:Hm.
+      - destruct (RM m md Hm) as (mr & mr' & dm0 & rows & A & B & C & D & E).
+        cbn in C. rewrite Hdm in C. inversion C; subst dm0. eauto.
+      - apply nth_error_None in Hm. assert (nth_error d m <> None) by congruence.
+        apply nth_error_Some in H. lia. }
+    unfold INV. cbn [is_refs is_links is_file c_run sc_ran sc_linked sc_written].
+    rewrite <- ?Hi_eq.
+    split; [|split; [|split; [|split; [|split]]]].
+    - (* ref_run_upto *)
+      eapply ref_run_upto_S; [exact Hrun|exact Hd'].
+    - (* done_wf *)
+      split; [lia|]. intros m md Hm.
+      destruct (RM m md Hm) as (mr & mr' & dm & rows & A & B & C & D & (HP & RP)).
+      destruct HP as (_ & _ & Hdm & Hdf). destruct RP as (_ & _ & _ & _ & Hlr & Hrf).
+      exists (dm ++ rows). split; [exact D|]. split.
+      + rewrite app_length, Hdm, Hlr. cbn [m_start].
+        apply (@Vadd md i); auto. eapply nth_error_In; eauto.
+      + apply Forall_app. split; assumption.
+    - (* sched_ok *)
+      destruct Hok as (H1 & H2 & H3 & H4). unfold sched_ok. cbn. repeat split; auto; try lia.
+    - (* links *)
+      unfold links_inv. cbn. auto.
+    - (* memory *)
+      split; [lia|]. intros m md Hm.
+      assert (Hmd : In md M) by (eapply nth_error_In; eauto).
+      destruct (RM m md Hm) as (mr & mr' & dm & rows & A & B & C & D & (HP & RP)).
+      destruct HP as (_ & (Hg & (dm0 & Hdm0 & Hown) & Hpend & Hinit) & Hdm & Hdf).
+      cbn [Nat.add] in *. rewrite C in Hdm0. inversion Hdm0; subst dm0. clear Hdm0.
+      destruct RP as (Ri & Rl & Rn & Ro & Hlr & Hrf).
+      exists mr'. split; [exact B|]. unfold model_inv. cbn [c_run sc_ran sc_linked sc_written]. split; [lia|]. split; [|split].
+      + exists (dm ++ rows). split; [exact D|]. intros g Hg'. cbn in Hg' |- *.
+        destruct (Nat.eq_dec g i) as [->|Hne]; [left; exact Rn|].
+        rewrite Ro by exact Hne.
+        destruct (Hown g ltac:(lia)) as [F|F]; [left|right; exact F].
+        rewrite F. rewrite (final_gd_ext md dm rows g i Hmd ltac:(lia) ltac:(lia) Hdm). reflexivity.
+      + intros g Hg1 Hg2. cbn in Hg1. destruct (Hpend g ltac:(lia) Hg2) as (ins & E1 & E2).
+        exists ins. split.
+        * eapply exp_inputs_mono; eauto.
+        * rewrite <- E2. apply view_ext. apply Ro. lia.
+      + rewrite Ri. exact Hinit.
+    - (* file *)
+      destruct Hfile as (Hlf & Hfile). split; [exact Hlf|]. intros m md Hm.
+      assert (Hmd : In md M) by (eapply nth_error_In; eauto).
+      destruct (RM m md Hm) as (mr & mr' & dm & rows & A & B & C & D & (HP & RP)).
+      destruct HP as (_ & _ & Hdm & _).
+      destruct (Hfile m md Hm) as (dm0 & Hdm0 & Hf0). cbn [Nat.add] in *. rewrite C in Hdm0. inversion Hdm0; subst dm0.
+      exists (dm ++ rows). split; [exact D|]. rewrite Hf0. f_equal. symmetry.
+      destruct Hok as (_ & H2 & H3 & _).
+      apply (exp_model_out_ext md dm rows (sc_written c) i Hmd ltac:(lia) ltac:(lia) Hdm).
+  Qed.
+
+  (** ---------- PROCESS LINKS ---------- *)
+  Lemma set_gens_same (refs : list mref) m mr :
+    nth_error refs m = Some mr -> set_gens refs m (mr_gens mr) = Some refs.
+  Proof.
+    intros H. unfold set_gens. eapply upd_nth_same; eauto. destruct mr; reflexivity.
+  Qed.
+
+  Lemma exp_inputs_snoc_other d applied l m md g :
+    (forall row, In row (seq (m_start md g) (m_count md g)) -> targets l m row = false) ->
+    exp_inputs d (applied ++ [l]) m md g = exp_inputs d applied m md g.
+  Proof.
+    intros H. unfold exp_inputs.
+    erewrite mapM_ext; [|intros row _; apply exp_row_snoc].
+    apply mapM_bind_id. intros row x Hr. unfold link_step. rewrite (H row Hr). reflexivity.
+  Qed.
+
+  Lemma apply_link_ok c d applied l rest refs :
+    sc_ran c = S (sc_linked c) -> sc_ran c <= G -> done_wf (sc_ran c) d ->
+    L = applied ++ l :: rest -> l_src_gen l = sc_linked c ->
+    mem_inv c d applied refs ->
+    exists refs', apply_link s_zero s_add cat gr refs l = Some refs' /\
+                  mem_inv c d (applied ++ [l]) refs'.
+  Proof.
+    intros Hran HranG Hdwf HL Hsrc (Hlenrefs & Hmem).
+    assert (Hl : In l L) by (rewrite HL; apply in_or_app; right; left; reflexivity).
+    destruct (Vlink l Hl) as (ms & md & Hms & Hmd & Hsd & HdG & Hsn & Hsnode & Hsv & Hdn & Hdnode & Hdv).
+    assert (Hmsin : In ms M) by (eapply nth_error_In; eauto).
+    assert (Hmdin : In md M) by (eapply nth_error_In; eauto).
+    destruct (contrib_done (sc_ran c) d l Hdwf HranG Hl ltac:(lia))
+      as (ms' & dm & nr & sdata & Hms' & Hdm & Hnr & Hsdata & Hcontrib).
+    rewrite Hms in Hms'. inversion Hms'; subst ms'. clear Hms'.
+    (* source *)
+    destruct (Hmem _ _ Hms) as (mrs & Hmrs & (Hgs & (dm' & Hdm' & Howns) & _ & _)).
+    rewrite Hdm in Hdm'. inversion Hdm'; subst dm'. clear Hdm'.
+    assert (Hsrcgen : nth_error (mr_gens mrs) (l_src_gen l) = Some (Some (final_gd ms dm (l_src_gen l)))).
+    { destruct (Howns (l_src_gen l) ltac:(lia)) as [F|(_ & _ & F)]; [exact F|lia]. }
+    unfold apply_link. rewrite Hms. cbn [obind]. rewrite Hmrs. cbn [obind].
+    fold get_generation. rewrite (get_generation_loaded ms _ _ _ Hsrcgen). cbn [obind].
+    rewrite (set_gens_same refs _ mrs Hmrs). cbn [obind].
+    rewrite Hmd. cbn [obind].
+    (* destination *)
+    destruct (Hmem _ _ Hmd) as (mrd & Hmrd & (Hgd & (dmd & Hdmd & Hownd) & Hpendd & Hinitd)).
+    rewrite Hmrd. cbn [obind].
+    destruct (Hpendd (l_dest_gen l) ltac:(lia) HdG) as (ins & Hexp & Hview).
+    destruct (get_generation_view md _ _ _ Hview) as (gens_d & GG & Nd & Ld & Od).
+    rewrite GG. cbn [obind].
+    assert (Hcs : m_count ms (l_src_gen l) =? 0 = false) by (apply Nat.eqb_neq; lia).
+    assert (Hcd : m_count md (l_dest_gen l) =? 0 = false) by (apply Nat.eqb_neq; lia).
+    unfold final_gd at 1. rewrite Hcs. cbn [gd_outputs obind].
+    rewrite nth_error_map, nth_error_slice_rows by exact Hsn.
+    rewrite <- Hsnode, Hnr. cbn [option_map obind]. rewrite Hsdata. cbn [obind].
+    unfold pending_gd at 1 2 3 4 5. rewrite Hcd. cbn [gd_inputs gd_count gd_states gd_params gd_outputs].
+    pose proof (mapM_length _ _ _ Hexp) as Hlen_ins. rewrite seq_length in Hlen_ins.
+    destruct (nth_error ins (l_dest_gen_node l)) as [row|] eqn:Hrow.
+    2:{ apply nth_error_None in Hrow. lia. }
+    assert (Hrowexp : exp_row d applied (l_dest_model l) md (l_dest_node l) = Some row).
+    { unfold exp_inputs in Hexp.
+      destruct (mapM_nth_error _ _ _ Hexp (l_dest_gen_node l) (l_dest_node l)) as (y & Y1 & Y2).
+      - rewrite Hdnode. apply nth_error_seq. exact Hdn.
+      - congruence. }
+    pose proof (exp_row_length _ _ _ _ _ _ Hmdin Hrowexp) as Hrowlen.
+    destruct (nth_error row (l_dest_var l)) as [x0|] eqn:Hx0.
+    2:{ apply nth_error_None in Hx0. lia. }
+    set (upd_row := fun row0 : list Ser => upd_nth row0 (l_dest_var l) (fun x => Some (s_add x sdata))).
+    destruct (upd_nth_Some row (l_dest_var l) (fun x => Some (s_add x sdata)) x0 _ Hx0 eq_refl) as (row' & Hrow').
+    destruct (upd_nth_Some ins (l_dest_gen_node l) upd_row row row' Hrow Hrow') as (ins' & Hins').
+    fold upd_row. rewrite Hins'. cbn [obind].
+    match goal with |- context [upd_nth gens_d (l_dest_gen l) ?f] =>
+      destruct (upd_nth_Some gens_d (l_dest_gen l) f _ _ Nd eq_refl) as (gens_d' & U2) end.
+    rewrite U2. cbn [obind].
+    destruct (view_set md _ _ _ _ U2) as (V2 & VO2 & N2 & O2 & L2).
+    unfold set_gens.
+    match goal with |- context [upd_nth refs (l_dest_model l) ?f] =>
+      destruct (upd_nth_Some refs (l_dest_model l) f mrd _ Hmrd eq_refl) as (refs' & U3) end.
+    exists refs'. split; [exact U3|].
+    destruct (upd_nth_spec _ _ _ _ U3) as (L3 & (x3 & y3 & X3 & Y3 & Z3) & O3).
+    rewrite Hmrd in X3. inversion X3; subst x3. inversion Y3; subst y3. clear X3 Y3.
+    (* the new expected inputs of the destination generation *)
+    assert (Hexp' : exp_inputs d (applied ++ [l]) (l_dest_model l) md (l_dest_gen l) = Some ins').
+    { unfold exp_inputs.
+      erewrite mapM_ext; [|intros r _; apply exp_row_snoc].
+      rewrite (mapM_bind_one _ (fun r x => link_step d (l_dest_model l) r x l) _
+                             (l_dest_gen_node l) (l_dest_node l) ins).
+      - rewrite <- Hins'. apply upd_nth_ext. intros x. unfold link_step, targets.
+        rewrite !Nat.eqb_refl. cbn [andb]. rewrite Hcontrib. reflexivity.
+      - apply seq_NoDup.
+      - rewrite Hdnode. apply nth_error_seq. exact Hdn.
+      - intros r x Hr Hne. unfold link_step.
+        destruct (targets l (l_dest_model l) r) eqn:Et; [|reflexivity]. exfalso.
+        apply in_seq in Hr.
+        apply (targets_iff l (l_dest_model l) md (l_dest_gen l) r Hl Hmd HdG) in Et.
+        + destruct Et as (_ & _ & Er). apply Hne. lia.
+        + pose proof (@Vadd md (l_dest_gen l) Hmdin HdG). lia.
+      - exact Hexp. }
+    split; [lia|]. intros m md0 Hm0.
+    assert (Hmd0in : In md0 M) by (eapply nth_error_In; eauto).
+    destruct (Nat.eq_dec m (l_dest_model l)) as [->|Hne].
+    - (* the destination model *)
+      rewrite Hmd in Hm0. inversion Hm0; subst md0. clear Hm0.
+      eexists. split; [exact Z3|]. unfold model_inv. cbn [mr_gens mr_init].
+      split; [lia|]. split; [|split].
+      + exists dmd. split; [exact Hdmd|]. intros g Hg.
+        rewrite O2 by lia. rewrite Od by lia. apply Hownd. exact Hg.
+      + intros g Hg1 Hg2. destruct (Nat.eq_dec g (l_dest_gen l)) as [->|Hg3].
+        * exists ins'. split; [exact Hexp'|]. rewrite V2. f_equal.
+          unfold pending_gd. rewrite Hcd. reflexivity.
+        * destruct (Hpendd g Hg1 Hg2) as (insg & E1 & E2). exists insg. split.
+          -- rewrite exp_inputs_snoc_other; [exact E1|].
+             intros r Hr. apply in_seq in Hr.
+             destruct (targets l (l_dest_model l) r) eqn:Et; [|reflexivity]. exfalso.
+             apply (targets_iff l (l_dest_model l) md g r Hl Hmd Hg2) in Et.
+             ++ destruct Et as (_ & Eg & _). congruence.
+             ++ pose proof (@Vadd md g Hmdin Hg2). lia.
+          -- rewrite <- E2. rewrite VO2 by exact Hg3. apply view_ext. apply Od. exact Hg3.
+      + exact Hinitd.
+    - (* any other model *)
+      destruct (Hmem _ _ Hm0) as (mr0 & Hmr0 & (Hg0 & Hown0 & Hpend0 & Hinit0)).
+      exists mr0. split; [rewrite O3 by exact Hne; exact Hmr0|].
+      unfold model_inv. split; [exact Hg0|]. split; [exact Hown0|]. split; [|exact Hinit0].
+      intros g Hg1 Hg2. destruct (Hpend0 g Hg1 Hg2) as (insg & E1 & E2). exists insg. split; [|exact E2].
+      rewrite exp_inputs_snoc_other; [exact E1|].
+      intros r _. unfold targets. replace (l_dest_model l =? m) with false; [reflexivity|].
+      symmetry. apply Nat.eqb_neq. congruence.
+  Qed.
+
+  Lemma process_links_ok c d :
+    sc_ran c = S (sc_linked c) -> sc_ran c <= G -> done_wf (sc_ran c) d ->
+    forall rem applied refs,
+      L = applied ++ rem ->
+      Forall (fun l => sc_linked c <= l_src_gen l) rem ->
+      sorted_nat (map l_src_gen rem) = true ->
+      Forall (fun l => l_src_gen l <= sc_linked c) applied ->
+      mem_inv c d applied refs ->
+      exists refs' applied' rem',
+        process_links s_zero s_add cat gr (sc_linked c) refs rem = Some (refs', rem') /\
+        L = applied' ++ rem' /\
+        Forall (fun l => l_src_gen l <= sc_linked c) applied' /\
+        Forall (fun l => S (sc_linked c) <= l_src_gen l) rem' /\
+        mem_inv c d applied' refs'.
+  Proof.
+    intros Hran HranG Hdwf. induction rem as [|l rest IH]; intros applied refs HL Hrem Hsort Happ Hmem.
+    - exists refs, applied, []. cbn.
+      split; [reflexivity|]. split; [exact HL|]. split; [exact Happ|]. split; [constructor|exact Hmem].
+    - cbn [process_links]. destruct (sc_linked c <? l_src_gen l) eqn:Elt.
+      + apply Nat.ltb_lt in Elt. exists refs, applied, (l :: rest).
+        split; [reflexivity|]. split; [exact HL|]. split; [exact Happ|]. split; [|exact Hmem].
+        cbn [map] in Hsort. destruct (sorted_nat_cons_Forall _ _ Hsort) as [Hf _].
+        constructor; [lia|]. rewrite Forall_map in Hf.
+        eapply Forall_impl; [|exact Hf]. cbn. intros; lia.
+      + apply Nat.ltb_ge in Elt. inversion Hrem as [|? ? Hl0 Hrest]; subst.
+        assert (Hsrc : l_src_gen l = sc_linked c) by lia.
+        destruct (apply_link_ok c d applied l rest refs Hran HranG Hdwf HL Hsrc Hmem) as (refs1 & A1 & M1).
+        rewrite A1. cbn [obind].
+        cbn [map] in Hsort. destruct (sorted_nat_cons_Forall _ _ Hsort) as [_ Hsort'].
+        destruct (IH (applied ++ [l]) refs1) as (refs' & applied' & rem' & P1 & P2 & P3 & P4 & P5); auto.
+        * rewrite <- app_assoc. exact HL.
+        * apply Forall_app. split; [exact Happ|]. constructor; [lia|constructor].
+        * exists refs', applied', rem'.
+          split; [exact P1|]. split; [exact P2|]. split; [exact P3|]. split; [exact P4|exact P5].
+  Qed.
+
+  Definition c_link (c : sched_state) : sched_state :=
+    {| sc_ran := sc_ran c; sc_linked := S (sc_linked c); sc_written := sc_written c |}.
+  Definition c_write (c : sched_state) : sched_state :=
+    {| sc_ran := sc_ran c; sc_linked := sc_linked c; sc_written := S (sc_written c) |}.
+
+  Lemma model_inv_weaken c c' d applied m md mr :
+    sc_ran c' = sc_ran c -> sc_linked c <= sc_linked c' -> sc_written c' = sc_written c ->
+    model_inv c d applied m md mr -> model_inv c' d applied m md mr.
+  Proof.
+    intros E1 E2 E3 (Hg & (dm & Hdm & Hown) & Hpend & Hinit).
+    unfold model_inv. split; [exact Hg|]. split; [|split].
+    - exists dm. split; [exact Hdm|]. intros g Hg'. rewrite E1 in Hg'.
+      destruct (Hown g Hg') as [F|(F1 & F2 & F3)]; [left; exact F|right]. repeat split; auto; lia.
+    - intros g Hg1 Hg2. rewrite E1 in Hg1. apply Hpend; auto.
+    - rewrite E3. exact Hinit.
+  Qed.
+
+  Lemma step_links c st d applied :
+    INV c st d applied -> sc_ran c = S (sc_linked c) ->
+    exists st' applied',
+      impl_step s_zero s_add cat K name_eqb gr sel st (ALinks (sc_linked c)) = Some st' /\
+      INV (c_link c) st' d applied'.
+  Proof.
+    intros (Hrun & Hwf & Hok & (HL & Happ & Hrem) & Hmem & Hfile) Hran.
+    destruct Hok as (Hok1 & Hok2 & Hok3 & Hok4).
+    assert (Hsort : sorted_nat (map l_src_gen (is_links st)) = true).
+    { pose proof Vsorted as HS. rewrite HL, map_app in HS. eapply sorted_nat_app_r; eauto. }
+    destruct (process_links_ok c d Hran Hok3 Hwf (is_links st) applied (is_refs st) HL Hrem Hsort)
+      as (refs' & applied' & rem' & P1 & P2 & P3 & P4 & P5); auto.
+    { eapply Forall_impl; [|exact Happ]. cbn. intros; lia. }
+    cbn [impl_step]. rewrite P1. cbn [obind]. eexists. exists applied'. split; [reflexivity|].
+    unfold INV. cbn [is_refs is_links is_file c_link sc_ran sc_linked sc_written].
+    split; [exact Hrun|]. split; [exact Hwf|]. split; [|split; [|split]].
+    - unfold sched_ok. cbn. repeat split; auto.
+    - unfold links_inv. cbn. split; [exact P2|]. split; [|exact P4].
+      eapply Forall_impl; [|exact P3]. cbn. intros; lia.
+    - destruct P5 as (Q1 & Q2). split; [exact Q1|]. intros m md Hm.
+      destruct (Q2 m md Hm) as (mr & A & B). exists mr. split; [exact A|].
+      eapply model_inv_weaken; [| | |exact B]; cbn; lia.
+    - exact Hfile.
+  Qed.
+
+  (** ---------- writeGeneration(g) ---------- *)
+  Lemma rows_of_0 {A} (proj : node_result -> A) md dm : rows_of proj md dm 0 = repeat None (m_total md).
+  Proof. unfold rows_of. cbn. rewrite Nat.sub_0_r. reflexivity. Qed.
+
+  Lemma write_ds_ok {A} (proj : node_result -> A) md dm a c :
+    a + c <= length dm -> a + c <= m_total md ->
+    write_rows (rows_of proj md dm a) a (map proj (slice_rows a c dm)) = Some (rows_of proj md dm (a + c)).
+  Proof.
+    intros H1 H2. unfold rows_of, slice_rows.
+    set (f := fun nr => Some (proj nr)).
+    assert (Hl : length (map f (firstn a dm)) = a) by (rewrite map_length, firstn_length; lia).
+    assert (Hc : length (map proj (firstn c (skipn a dm))) = c).
+    { rewrite map_length, firstn_length, skipn_length. lia. }
+    pose proof (write_rows_spec (map f (firstn a dm)) (map proj (firstn c (skipn a dm))) (m_total md - (a + c))) as W.
+    rewrite Hl, Hc in W. replace (c + (m_total md - (a + c))) with (m_total md - a) in W by lia.
+    rewrite W. f_equal.
+    rewrite firstn_add_skipn, map_app, <- app_assoc. f_equal. f_equal.
+    unfold f. rewrite map_map. reflexivity.
+  Qed.
+
+  Lemma write_data_ok c d applied m md mr dm :
+    outp = true -> sc_written c < sc_ran c -> sc_ran c <= G ->
+    nth_error M m = Some md -> model_inv c d applied m md mr ->
+    nth_error d m = Some dm -> length dm = m_start md (sc_ran c) ->
+    exists mr',
+      write_data s_zero cat name_eqb gr sel (sc_written c) md mr (exp_model_out md dm (sc_written c))
+        = Some (mr', exp_model_out md dm (S (sc_written c))) /\
+      model_inv (c_write c) d applied m md mr'.
+  Proof.
+    intros Hout Hw HranG Hm (Hg & (dm' & Hdm' & Hown) & Hpend & Hinit) Hdm Hlen.
+    rewrite Hdm in Hdm'. inversion Hdm'; subst dm'. clear Hdm'.
+    assert (Hmd : In md M) by (eapply nth_error_In; eauto).
+    set (g := sc_written c) in *.
+    assert (HgG : g < G) by lia.
+    assert (Hloaded : nth_error (mr_gens mr) g = Some (Some (final_gd md dm g))).
+    { destruct (Hown g Hw) as [F|(_ & F & _)]; [exact F|lia]. }
+    pose proof (@Vadd md g Hmd HgG) as Hadd.
+    pose proof (@Vmono md (S g) (sc_ran c) Hmd ltac:(lia) HranG) as Hmono. cbn [m_start] in Hmono.
+    fold (m_stop md g) in Hmono.
+    pose proof (@Vstop md g Hmd HgG) as Hstop.
+    unfold write_data. fold get_generation. rewrite (get_generation_loaded md _ _ _ Hloaded). cbn [obind].
+    assert (Hinv' : forall init', init' = outp && (0 <? m_start md (S g)) ->
+              model_inv (c_write c) d applied m md {| mr_gens := mr_gens mr; mr_init := init' |}).
+    { intros init' Hi'. unfold model_inv. cbn [mr_gens mr_init c_write sc_ran sc_linked sc_written].
+      split; [exact Hg|]. split; [|split].
+      - exists dm. split; [exact Hdm|]. intros g' Hg'.
+        destruct (Hown g' Hg') as [F|(F1 & F2 & F3)]; [left; exact F|right]. cbn. repeat split; auto.
+      - exact Hpend.
+      - exact Hi'. }
+    unfold final_gd. destruct (m_count md g =? 0) eqn:E0.
+    - (* empty batch: nothing to write *)
+      apply Nat.eqb_eq in E0. cbn [gd_count empty_gd Nat.eqb].
+      eexists. split.
+      + f_equal. f_equal. unfold exp_model_out. cbn [m_start]. fold (m_stop md g).
+        replace (m_stop md g) with (m_start md g) by lia. reflexivity.
+      + apply Hinv'. rewrite Hinit. cbn [m_start]. fold (m_stop md g).
+        replace (m_stop md g) with (m_start md g) by lia. reflexivity.
+    - apply Nat.eqb_neq in E0. cbn zeta. cbn [gd_count].
+      replace (m_count md g =? 0) with false by (symmetry; apply Nat.eqb_neq; exact E0).
+      rewrite (Hnosplit md Hmd).
+      set (rows := slice_rows (m_start md g) (m_count md g) dm).
+      assert (Hrows : length rows = m_count md g).
+      { unfold rows. apply length_slice_rows. lia. }
+      assert (Hnext : m_start md (S g) = m_start md g + m_count md g) by (cbn [m_start]; fold (m_stop md g); lia).
+      assert (Hpos : 0 <? m_start md (S g) = true) by (apply Nat.ltb_lt; lia).
+      assert (WI : write_rows (rows_of (@nr_in _ _) md dm (m_start md g)) (m_start md g) (map (@nr_in _ _) rows)
+                   = Some (rows_of (@nr_in _ _) md dm (m_start md (S g)))).
+      { rewrite Hnext. apply write_ds_ok; lia. }
+      assert (WO : write_rows (rows_of (@nr_out _ _) md dm (m_start md g)) (m_start md g) (map (@nr_out _ _) rows)
+                   = Some (rows_of (@nr_out _ _) md dm (m_start md (S g)))).
+      { rewrite Hnext. apply write_ds_ok; lia. }
+      assert (WS : write_rows (rows_of (@nr_st _ _) md dm (m_start md g)) (m_start md g) (map (@nr_st _ _) rows)
+                   = Some (rows_of (@nr_st _ _) md dm (m_start md (S g)))).
+      { rewrite Hnext. apply write_ds_ok; lia. }
+      unfold write_data_h5. cbn [gd_outputs gd_inputs gd_states obind]. rewrite Hinit, Hout. cbn [andb].
+      unfold exp_model_out at 1 2 3 4. rewrite Hout. cbn [andb]. cbn zeta.
+      destruct (0 <? m_start md g) eqn:Ea.
+      + (* datasets exist already *)
+        cbn [obind negb mo_inputs mo_outputs mo_states].
+        eexists. split.
+        * unfold exp_model_out. rewrite Hout, Hpos. cbn [andb]. cbn zeta.
+          destruct (write_inputs name_eqb sel md), (write_outputs name_eqb sel md);
+            cbn [obind]; rewrite ?WI, ?WO, ?WS; cbn [obind]; reflexivity.
+        * apply Hinv'. rewrite Hout, Hpos. reflexivity.
+      + (* first non-empty generation of this model: InitialiseOutputs *)
+        apply Nat.ltb_ge in Ea. assert (Ea0 : m_start md g = 0) by lia.
+        rewrite map_length, Hrows.
+        replace (0 <? m_count md g) with true by (symmetry; apply Nat.ltb_lt; lia).
+        cbn [obind negb mo_inputs mo_outputs mo_states no_out create_ds].
+        rewrite Ea0 in WI, WO, WS. rewrite rows_of_0 in WI. rewrite rows_of_0 in WO. rewrite rows_of_0 in WS. rewrite Ea0.
+        eexists. split.
+        * unfold exp_model_out. rewrite Hout, Hpos. cbn [andb]. cbn zeta.
+          destruct (write_inputs name_eqb sel md), (write_outputs name_eqb sel md);
+            cbn [obind]; unfold create_ds; cbn [obind]; rewrite ?WI, ?WO, ?WS; cbn [obind]; reflexivity.
+        * apply Hinv'. rewrite Hout, Hpos. reflexivity.
+  Qed.
+
+  Lemma write_models_ok g
+        (P : nat -> model_data -> mref -> model_out -> Prop)
+        (Q : nat -> model_data -> mref -> model_out -> Prop) :
+    (forall m md mr mo, P m md mr mo ->
+       exists mr' mo', write_data s_zero cat name_eqb gr sel g md mr mo = Some (mr', mo') /\ Q m md mr' mo') ->
+    forall mds refs file off,
+      length refs = length mds -> length file = length mds ->
+      (forall p md, nth_error mds p = Some md ->
+         exists mr mo, nth_error refs p = Some mr /\ nth_error file p = Some mo /\ P (off + p) md mr mo) ->
+      exists refs' file',
+        write_models s_zero cat name_eqb gr sel g mds refs file = Some (refs', file') /\
+        length refs' = length mds /\ length file' = length mds /\
+        forall p md, nth_error mds p = Some md ->
+          exists mr' mo', nth_error refs' p = Some mr' /\ nth_error file' p = Some mo' /\ Q (off + p) md mr' mo'.
+  Proof.
+    intros HPQ. induction mds as [|md mds IH]; intros refs file off Hl1 Hl2 Hall.
+    - destruct refs; [|discriminate]. destruct file; [|discriminate].
+      exists [], []. cbn. repeat split; auto. intros p md Hp. destruct p; discriminate.
+    - destruct refs as [|mr refs]; [discriminate|]. destruct file as [|mo file]; [discriminate|].
+      cbn [write_models].
+      destruct (Hall 0 md eq_refl) as (mr0 & mo0 & A & B & HP). cbn in A, B.
+      inversion A; subst mr0. inversion B; subst mo0. rewrite Nat.add_0_r in HP.
+      destruct (HPQ _ _ _ _ HP) as (mr' & mo' & W & HQ). rewrite W. cbn [obind].
+      destruct (IH refs file (S off)) as (refs' & file' & W' & L1 & L2 & R).
+      + cbn in Hl1; lia.
+      + cbn in Hl2; lia.
+      + intros p md0 Hp. destruct (Hall (S p) md0 Hp) as (mr1 & mo1 & A1 & B1 & P1).
+        exists mr1, mo1. replace (S off + p) with (off + S p) by lia. auto.
+      + rewrite W'. cbn [obind]. exists (mr' :: refs'), (mo' :: file'). cbn [length].
+        split; [reflexivity|]. split; [lia|]. split; [lia|].
+        intros p md0 Hp. destruct p as [|p]; cbn in Hp.
+        * inversion Hp; subst md0. exists mr', mo'. rewrite Nat.add_0_r. cbn. auto.
+        * destruct (R p md0 Hp) as (mr1 & mo1 & A1 & B1 & Q1).
+          exists mr1, mo1. replace (off + S p) with (S off + p) by lia. cbn. auto.
+  Qed.
+
+  Lemma step_write c st d applied :
+    INV c st d applied -> outp = true -> sc_written c < sc_ran c ->
+    exists st',
+      impl_step s_zero s_add cat K name_eqb gr sel st (AWrite (sc_written c)) = Some st' /\
+      INV (c_write c) st' d applied.
+  Proof.
+    intros (Hrun & Hwf & Hok & Hlk & (Hlenrefs & Hmem) & (Hlenfile & Hfile)) Hout Hw.
+    destruct Hok as (Hok1 & Hok2 & Hok3 & Hok4). destruct Hwf as (Hlend & Hwf).
+    set (P := fun (m : nat) (md : model_data) (mr : mref) (mo : model_out) =>
+                nth_error M m = Some md /\ model_inv c d applied m md mr /\
+                exists dm, nth_error d m = Some dm /\ length dm = m_start md (sc_ran c) /\
+                           mo = exp_model_out md dm (sc_written c)).
+    set (Q := fun (m : nat) (md : model_data) (mr' : mref) (mo' : model_out) =>
+                model_inv (c_write c) d applied m md mr' /\
+                exists dm, nth_error d m = Some dm /\ mo' = exp_model_out md dm (S (sc_written c))).
+    assert (HPQ : forall m md mr mo, P m md mr mo ->
+              exists mr' mo', write_data s_zero cat name_eqb gr sel (sc_written c) md mr mo = Some (mr', mo') /\
+                              Q m md mr' mo').
+    { intros m md mr mo (Hm & Hinv & dm & Hdm & Hlen & ->).
+      destruct (write_data_ok c d applied m md mr dm Hout Hw Hok3 Hm Hinv Hdm Hlen) as (mr' & W & I').
+      exists mr', (exp_model_out md dm (S (sc_written c))). split; [exact W|]. split; [exact I'|]. eauto. }
+    destruct (write_models_ok (sc_written c) P Q HPQ M (is_refs st) (is_file st) 0 Hlenrefs Hlenfile)
+      as (refs' & file' & W & L1 & L2 & R).
+    { intros p md Hp. destruct (Hmem p md Hp) as (mr & Hmr & Hinv).
+      destruct (Hfile p md Hp) as (dm & Hdm & Hmo).
+      destruct (Hwf p md Hp) as (dm' & Hdm' & Hlen & _). rewrite Hdm in Hdm'. inversion Hdm'; subst dm'.
+      exists mr, (exp_model_out md dm (sc_written c)). cbn [Nat.add].
+      split; [exact Hmr|]. split; [exact Hmo|]. unfold P. split; [exact Hp|]. split; [exact Hinv|]. eauto. }
+    cbn [impl_step]. rewrite W. cbn [obind]. eexists. split; [reflexivity|].
+    unfold INV. cbn [is_refs is_links is_file c_write sc_ran sc_linked sc_written].
+    split; [exact Hrun|]. split; [split; [exact Hlend|exact Hwf]|]. split; [|split; [|split]].
+    - unfold sched_ok. cbn. repeat split; auto; try lia. intros E. congruence.
+    - exact Hlk.
+    - split; [lia|]. intros m md Hm. destruct (R m md Hm) as (mr' & mo' & A & B & (I' & _)).
+      exists mr'. split; [exact A|exact I'].
+    - split; [lia|]. intros m md Hm. destruct (R m md Hm) as (mr' & mo' & A & B & (_ & dm & Hdm & ->)).
+      exists dm. split; [exact Hdm|exact B].
+  Qed.
+
+  (** ---------- PurgeGeneration(g) ---------- *)
+  Lemma step_purge c st d applied g :
+    INV c st d applied -> g < sc_written c -> g < sc_linked c ->
+    exists st',
+      impl_step s_zero s_add cat K name_eqb gr sel st (APurge g) = Some st' /\
+      INV c st' d applied.
+  Proof.
+    intros (Hrun & Hwf & Hok & Hlk & (Hlenrefs & Hmem) & Hfile) Hgw Hgl.
+    destruct Hok as (Hok1 & Hok2 & Hok3 & Hok4).
+    set (f := fun mr : mref => gens' <- upd_nth (mr_gens mr) g (fun _ => Some None) ;;
+                               Some {| mr_gens := gens'; mr_init := mr_init mr |}).
+    assert (Hlen_of : forall mr, In mr (is_refs st) -> length (mr_gens mr) = G).
+    { intros mr Hin. apply In_nth_error in Hin. destruct Hin as (m & Hm).
+      destruct (nth_error M m) as [md|] eqn:E.
+      - destruct (Hmem m md E) as (mr' & A & (B & _)). congruence.
+      - apply nth_error_None in E. assert (nth_error (is_refs st) m <> None) by congruence.
+        apply nth_error_Some in H. lia. }
+    destruct (mapM_Some_all f (is_refs st)) as (refs' & Hrefs').
+    { intros mr Hin. unfold f.
+      destruct (nth_error (mr_gens mr) g) as [x|] eqn:E.
+      - destruct (upd_nth_Some (mr_gens mr) g (fun _ => Some None) x None E eq_refl) as (gens' & U).
+        rewrite U. cbn. eauto.
+      - apply nth_error_None in E. rewrite (Hlen_of mr Hin) in E. lia. }
+    cbn [impl_step]. unfold purge. fold f. rewrite Hrefs'. cbn [obind]. eexists. split; [reflexivity|].
+    unfold INV. cbn [is_refs is_links is_file].
+    split; [exact Hrun|]. split; [exact Hwf|]. split; [unfold sched_ok; auto|]. split; [exact Hlk|].
+    split; [|exact Hfile].
+    split; [rewrite (mapM_length _ _ _ Hrefs'); exact Hlenrefs|].
+    intros m md Hm. destruct (Hmem m md Hm) as (mr & Hmr & (Hg & (dm & Hdm & Hown) & Hpend & Hinit)).
+    destruct (mapM_nth_error _ _ _ Hrefs' m mr Hmr) as (mr' & Hmr' & Hf).
+    unfold f in Hf. destruct (upd_nth (mr_gens mr) g (fun _ => Some None)) as [gens'|] eqn:U; cbn in Hf; [|discriminate].
+    inversion Hf; subst mr'. clear Hf.
+    destruct (upd_nth_spec _ _ _ _ U) as (Ln & (x & y & X & Y & Z) & O). inversion Y; subst y.
+    eexists. split; [exact Hmr'|]. unfold model_inv. cbn [mr_gens mr_init].
+    split; [lia|]. split; [|split; [|exact Hinit]].
+    - exists dm. split; [exact Hdm|]. intros g' Hg'.
+      destruct (Nat.eq_dec g' g) as [->|Hne].
+      + right. auto.
+      + rewrite O by exact Hne. apply Hown. exact Hg'.
+    - intros g' Hg1 Hg2. destruct (Hpend g' Hg1 Hg2) as (ins & E1 & E2). exists ins. split; [exact E1|].
+      rewrite <- E2. apply view_ext. apply O. lia.
+  Qed.
+
+  (** ---------- initial state ---------- *)
+  Lemma nth_error_repeat_lt {A} (x : A) n g : g < n -> nth_error (repeat x n) g = Some x.
+  Proof.
+    revert g; induction n as [|n IH]; intros [|g] H; cbn; try lia; [reflexivity|]. apply IH. lia.
+  Qed.
+
+  Lemma impl_init_ok : exists st0, impl_init cat gr = Some st0 /\ INV sched0 st0 (done0 gr) [].
+  Proof.
+    unfold impl_init.
+    replace (forallb (fun md : model_data => cat_known cat (md_name md) && (0 <? length (md_batches md))) M)
+      with true.
+    2:{ symmetry. apply forallb_forall. intros md Hmd. apply andb_true_iff. split.
+        - eapply vm_known; eauto.
+        - apply Nat.ltb_lt. rewrite (Vlen md Hmd). apply VG. }
+    eexists. split; [reflexivity|].
+    unfold INV. cbn [is_refs is_links is_file sched0 sc_ran sc_linked sc_written].
+    split; [reflexivity|]. split; [|split; [|split; [|split]]].
+    - split; [unfold done0; apply map_length|]. intros m md Hm.
+      exists []. unfold done0. rewrite nth_error_map, Hm. cbn. repeat split; auto.
+    - unfold sched_ok. cbn. repeat split; auto; lia.
+    - unfold links_inv. cbn. repeat split; auto. apply Forall_forall. intros; lia.
+    - split; [apply map_length|]. intros m md Hm.
+      assert (Hmd : In md M) by (eapply nth_error_In; eauto).
+      eexists. split; [rewrite nth_error_map, Hm; reflexivity|].
+      unfold model_inv. cbn [mr_gens mr_init sc_ran sc_linked sc_written sched0].
+      split; [rewrite repeat_length; apply Vlen; exact Hmd|]. split; [|split].
+      + exists []. split; [unfold done0; rewrite nth_error_map, Hm; reflexivity|].
+        intros g Hg. cbn in Hg. lia.
+      + intros g _ Hg. destruct (load_gen_pending (done0 gr) m md g Hmd Hg) as (ins & E1 & E2).
+        exists ins. split; [exact E1|]. unfold view.
+        rewrite nth_error_repeat_lt by (rewrite (Vlen md Hmd); exact Hg). exact E2.
+      + cbn. rewrite andb_false_r. reflexivity.
+    - split; [apply map_length|]. intros m md Hm.
+      exists []. split; [unfold done0; rewrite nth_error_map, Hm; reflexivity|].
+      rewrite nth_error_map, Hm. cbn. unfold exp_model_out. cbn. rewrite andb_false_r. reflexivity.
+  Qed.
+
+  (** ---------- the file at the end ---------- *)
+  Lemma write_for_requested nm incl excl dflt :
+    write_for name_eqb nm incl excl dflt = requested name_eqb nm incl excl dflt.
+  Proof.
+    unfold write_for, requested, mem_name. destruct incl, excl; reflexivity.
+  Qed.
+
+  Lemma write_outputs_want (md : model_data) : write_outputs name_eqb sel md = want_outputs name_eqb sel md.
+  Proof. apply write_for_requested. Qed.
+
+  Lemma write_inputs_want (md : model_data) : In md M -> write_inputs name_eqb sel md = want_inputs name_eqb sel md.
+  Proof.
+    intros Hmd. unfold write_inputs, want_inputs. rewrite write_for_requested. f_equal.
+    unfold m_stop. pose proof (Vlen md Hmd) as HL. pose proof VG.
+    destruct (md_batches md); [cbn in HL; lia|reflexivity].
+  Qed.
+
+  Lemma nth_error_combine {A B} (l1 : list A) (l2 : list B) m a b :
+    nth_error l1 m = Some a -> nth_error l2 m = Some b -> nth_error (combine l1 l2) m = Some (a, b).
+  Proof.
+    revert l2 m; induction l1 as [|x l1 IH]; intros [|y l2] [|m] H1 H2; cbn in *; try discriminate.
+    - congruence.
+    - apply IH; auto.
+  Qed.
+
+  Lemma final_file c st d applied :
+    INV c st d applied -> sched_complete G outp c = true ->
+    is_file st = ref_file name_eqb gr sel d.
+  Proof.
+    intros (_ & (Hlend & Hwf) & _ & _ & _ & (Hlf & Hfile)) Hc.
+    unfold sched_complete in Hc. apply andb_true_iff in Hc. destruct Hc as [Hc Hc3].
+    apply andb_true_iff in Hc. destruct Hc as [Hc1 Hc2].
+    apply Nat.eqb_eq in Hc1, Hc2, Hc3.
+    apply list_eq_nth_error. intros m. unfold ref_file.
+    destruct (nth_error M m) as [md|] eqn:Hm.
+    - assert (Hmd : In md M) by (eapply nth_error_In; eauto).
+      destruct (Hfile m md Hm) as (dm & Hdm & Hf). rewrite Hf.
+      destruct (Hwf m md Hm) as (dm' & Hdm' & Hlen & _). rewrite Hdm in Hdm'. inversion Hdm'; subst dm'.
+      rewrite nth_error_map, (nth_error_combine _ _ _ _ _ Hm Hdm). cbn [option_map]. f_equal.
+      rewrite Hc1, <- (Vtot md Hmd) in Hlen.
+      unfold exp_model_out, ref_model_out. rewrite Hc3.
+      destruct outp; cbn [andb negb orb]; [|reflexivity].
+      rewrite <- (Vtot md Hmd).
+      destruct (m_total md) as [|t] eqn:Et; [reflexivity|]. cbn [Nat.ltb Nat.leb Nat.eqb].
+      rewrite (write_inputs_want md Hmd), write_outputs_want.
+      assert (R : forall A (proj : node_result -> A),
+                 rows_of proj md dm (S t) = map (fun nr => Some (proj nr)) dm).
+      { intros A proj. unfold rows_of. rewrite Et, Nat.sub_diag. cbn [repeat]. rewrite app_nil_r.
+        rewrite firstn_all2 by lia. reflexivity. }
+      rewrite !R. reflexivity.
+    - pose proof Hm as Hm'. apply nth_error_None in Hm'.
+      replace (nth_error (is_file st) m) with (@None model_out) by (symmetry; apply nth_error_None; lia).
+      symmetry. apply nth_error_None. rewrite map_length, combine_length. lia.
+  Qed.
+
+  (** ---------- every legal schedule ---------- *)
+  Definition ref_continue (n : nat) (d : done_t) : option done_t := foldM ref_gen (seq n (G - n)) d.
+
+  Lemma exec_inv : forall sch c st d applied c',
+    INV c st d applied ->
+    sched_run G outp sch c = Some c' -> sched_complete G outp c' = true ->
+    orel (fun st' d' => is_file st' = ref_file name_eqb gr sel d')
+         (impl_exec s_zero s_add cat K name_eqb gr sel sch st)
+         (ref_continue (sc_ran c) d).
+  Proof.
+    induction sch as [|a sch IH]; intros c st d applied c' HI Hrun Hcomp.
+    - cbn in Hrun. inversion Hrun; subst c'. cbn [impl_exec foldM].
+      pose proof Hcomp as Hc. unfold sched_complete in Hc.
+      apply andb_true_iff in Hc. destruct Hc as [Hc _]. apply andb_true_iff in Hc. destruct Hc as [Hc1 _].
+      apply Nat.eqb_eq in Hc1. unfold ref_continue. rewrite Hc1, Nat.sub_diag. cbn.
+      eapply final_file; eauto.
+    - unfold sched_run in Hrun. cbn [foldM] in Hrun.
+      destruct (sched_next G outp c a) as [c1|] eqn:Hn; cbn [obind] in Hrun; [|discriminate].
+      fold (sched_run G outp sch c1) in Hrun.
+      unfold impl_exec. cbn [foldM]. fold (impl_exec s_zero s_add cat K name_eqb gr sel sch).
+      destruct a as [i|i|g|g]; cbn [sched_next] in Hn.
+      + (* ARun *)
+        destruct ((i =? sc_ran c) && (sc_ran c =? sc_linked c) && (i <? G)) eqn:Ec; [|discriminate].
+        inversion Hn; subst c1. clear Hn.
+        apply andb_true_iff in Ec. destruct Ec as [Ec E3]. apply andb_true_iff in Ec. destruct Ec as [E1 E2].
+        apply Nat.eqb_eq in E1, E2. apply Nat.ltb_lt in E3. subst i.
+        pose proof (step_run c st d applied HI E2 E3) as SR.
+        unfold ref_continue at 1.
+        replace (G - sc_ran c) with (S (G - S (sc_ran c))) by lia. cbn [seq foldM].
+        destruct (impl_step s_zero s_add cat K name_eqb gr sel st (ARun (sc_ran c))) as [st1|];
+          destruct (ref_gen d (sc_ran c)) as [d1|]; cbn [orel obind] in *; try contradiction; [|exact I].
+        apply (IH (c_run c) st1 d1 applied c' SR Hrun Hcomp).
+      + (* ALinks *)
+        destruct ((i =? sc_linked c) && (sc_ran c =? S (sc_linked c))) eqn:Ec; [|discriminate].
+        inversion Hn; subst c1. clear Hn.
+        apply andb_true_iff in Ec. destruct Ec as [E1 E2]. apply Nat.eqb_eq in E1, E2. subst i.
+        destruct (step_links c st d applied HI E2) as (st1 & applied1 & S1 & I1).
+        rewrite S1. cbn [obind].
+        apply (IH (c_link c) st1 d applied1 c' I1 Hrun Hcomp).
+      + (* AWrite *)
+        destruct (outp && (g =? sc_written c) && (g <? sc_ran c)) eqn:Ec; [|discriminate].
+        inversion Hn; subst c1. clear Hn.
+        apply andb_true_iff in Ec. destruct Ec as [Ec E3]. apply andb_true_iff in Ec. destruct Ec as [E1 E2].
+        apply Nat.eqb_eq in E2. apply Nat.ltb_lt in E3. subst g.
+        destruct (step_write c st d applied HI E1 E3) as (st1 & S1 & I1).
+        rewrite S1. cbn [obind].
+        apply (IH (c_write c) st1 d applied c' I1 Hrun Hcomp).
+      + (* APurge *)
+        destruct (outp && (g <? sc_written c) && (g <? sc_linked c)) eqn:Ec; [|discriminate].
+        inversion Hn; subst c1. clear Hn.
+        apply andb_true_iff in Ec. destruct Ec as [Ec E3]. apply andb_true_iff in Ec. destruct Ec as [E1 E2].
+        apply Nat.ltb_lt in E2, E3.
+        destruct (step_purge c st d applied g HI E2 E3) as (st1 & S1 & I1).
+        rewrite S1. cbn [obind].
+        apply (IH c st1 d applied c' I1 Hrun Hcomp).
+  Qed.
+
+  (** ow-sim's result equals the sequential reference for EVERY legal schedule
+      of simulation, link processing, writing and purging. *)
+  Theorem impl_any_schedule_eq_ref_sec sch :
+    legal_schedule G outp sch ->
+    impl_sim_sched s_zero s_add cat K name_eqb gr sel sch = ref_sim s_zero s_add cat K name_eqb gr sel.
+  Proof.
+    intros (c' & Hrun & Hcomp).
+    destruct impl_init_ok as (st0 & Hinit & HI).
+    unfold impl_sim_sched, ref_sim. rewrite Hinit. cbn [obind].
+    pose proof (exec_inv sch sched0 st0 (done0 gr) [] c' HI Hrun Hcomp) as HO.
+    unfold ref_continue in HO. cbn [sc_ran sched0] in HO. rewrite Nat.sub_0_r in HO.
+    unfold ref_run, ref_run_upto. fold ref_gen.
+    destruct (impl_exec s_zero s_add cat K name_eqb gr sel sch st0) as [st|];
+      destruct (foldM ref_gen (seq 0 G) (done0 gr)) as [d|]; cbn [orel obind] in *; try contradiction;
+      [|reflexivity].
+    rewrite HO. reflexivity.
+  Qed.
+
+  (** the canonical schedule is legal *)
+  Lemma canon_sched_run n : n <= G ->
+    sched_run G outp (canon_sched sel n) sched0 =
+    Some {| sc_ran := n; sc_linked := n; sc_written := if outp then n else 0 |}.
+  Proof.
+    induction n as [|n IH]; intros Hn.
+    - cbn. destruct outp; reflexivity.
+    - unfold canon_sched in *. rewrite seq_S, flat_map_app. unfold sched_run in *. rewrite foldM_app.
+      rewrite IH by lia. cbn [obind Nat.add flat_map app].
+      destruct outp eqn:Eo.
+      + destruct n as [|j]; cbn [app foldM sched_next sc_ran sc_linked sc_written andb obind];
+          rewrite ?Nat.eqb_refl; cbn [andb];
+          repeat (match goal with
+                  | |- context [?a <? ?b] => replace (a <? b) with true by (symmetry; apply Nat.ltb_lt; lia)
+                  end; cbn [andb obind sc_ran sc_linked sc_written]; rewrite ?Nat.eqb_refl; cbn [andb obind]);
+          reflexivity.
+      + cbn [app foldM sched_next sc_ran sc_linked sc_written andb obind].
+        rewrite ?Nat.eqb_refl. cbn [andb].
+        replace (n <? G) with true by (symmetry; apply Nat.ltb_lt; lia).
+        cbn [obind sc_ran sc_linked sc_written]. rewrite ?Nat.eqb_refl. cbn [andb obind]. reflexivity.
+  Qed.
+
+  Lemma canon_sched_legal : legal_schedule G outp (canon_sched sel G).
+  Proof.
+    eexists. split; [apply canon_sched_run; lia|].
+    unfold sched_complete. cbn. rewrite !Nat.eqb_refl. destruct outp; rewrite ?Nat.eqb_refl; reflexivity.
+  Qed.
+
+  Theorem impl_eq_ref_sec :
+    impl_sim s_zero s_add cat K name_eqb gr sel = ref_sim s_zero s_add cat K name_eqb gr sel.
+  Proof. apply impl_any_schedule_eq_ref_sec. apply canon_sched_legal. Qed.
+
 End Proofs.
+
+(** ---------- the theorems, closed ---------- *)
+Definition kernels_match_catalogue {name T Ser : Type} (cat : catalogue name)
+           (K : name -> list T -> list T -> list Ser -> option (list Ser * list T)) : Prop :=
+  forall nm p s i o s', K nm p s i = Some (o, s') -> length o = cat_nout cat nm.
+
+Definition no_external_writer {name T Ser : Type} (name_eqb : name -> name -> bool)
+           (gr : graph name T Ser) (sel : selection name) : Prop :=
+  forall md, In md (g_models gr) -> is_split name_eqb sel md = false.
+
+Theorem impl_any_schedule_eq_ref :
+  forall (name T Ser : Type) (s_zero : nat -> Ser) (s_add : Ser -> Ser -> Ser)
+         (cat : catalogue name)
+         (K : name -> list T -> list T -> list Ser -> option (list Ser * list T))
+         (name_eqb : name -> name -> bool)
+         (gr : graph name T Ser) (sel : selection name) (sch : list action),
+    valid_graph cat name_eqb gr = true ->
+    kernels_match_catalogue cat K ->
+    no_external_writer name_eqb gr sel ->
+    legal_schedule (n_gens gr) (sel_outfile sel) sch ->
+    impl_sim_sched s_zero s_add cat K name_eqb gr sel sch = ref_sim s_zero s_add cat K name_eqb gr sel.
+Proof. intros. apply impl_any_schedule_eq_ref_sec; assumption. Qed.
+
+Theorem impl_eq_ref :
+  forall (name T Ser : Type) (s_zero : nat -> Ser) (s_add : Ser -> Ser -> Ser)
+         (cat : catalogue name)
+         (K : name -> list T -> list T -> list Ser -> option (list Ser * list T))
+         (name_eqb : name -> name -> bool)
+         (gr : graph name T Ser) (sel : selection name),
+    valid_graph cat name_eqb gr = true ->
+    kernels_match_catalogue cat K ->
+    no_external_writer name_eqb gr sel ->
+    impl_sim s_zero s_add cat K name_eqb gr sel = ref_sim s_zero s_add cat K name_eqb gr sel.
+Proof. intros. apply impl_eq_ref_sec; assumption. Qed.
+
+Print Assumptions impl_any_schedule_eq_ref.
+Print Assumptions impl_eq_ref.
